@@ -629,6 +629,9 @@ func (e *engine) eval() error {
 		var substs []ast.ConstSubstList
 		var inputFacts []ast.Atom
 		e.store.GetFacts(internalPremise, func(fact ast.Atom) error {
+			if _, err := unionfind.UnifyTermsExtend(internalPremise.Args, fact.Args, unionfind.New()); err != nil {
+				return nil // The store matches constants only; repeated variables need unification.
+			}
 			var subst ast.ConstSubstList
 			for i, baseTerm := range internalPremise.Args {
 				if v, ok := baseTerm.(ast.Variable); ok {
